@@ -121,6 +121,31 @@ func genC01(g *gen) {
 		}
 		g.op("x.sign %s 00", id)
 	}
+	// (a') probes at the byte boundaries of the stored index (h = 10): jump, sign, verify, sign again
+	g.note("index byte boundaries, h=10")
+	{
+		g.quiet = true
+		out := g.op("x.new p10 %s 10 0 0", hx(seed))
+		pk, _ := okval(out)
+		for _, idx := range []int{255, 256, 300, 511, 512, 1022} {
+			g.op("x.setidx p10 %d", idx)
+			for r := 0; r < 2 && idx+r < 1024; r++ {
+				msg := hx(g.bytes(5))
+				s := g.op("x.sign p10 %s", msg)
+				sig, ok := okval(s)
+				v := "refused"
+				if ok {
+					v = g.op("x.verify 16 %s %s %s", msg, sig, pk)
+				}
+				g.check(v == "ok true", "verify-sign", fmt.Sprintf("h=10 SHA2_256 after SetIndex(%d), signature %d: Verify(Sign) = %s", idx, r, v),
+					fmt.Sprintf("x.new p10 %s 10 0 0", hx(seed)), fmt.Sprintf("x.setidx p10 %d", idx), "x.sign p10 "+msg)
+			}
+		}
+		g.quiet = false
+	}
+	if g.stopEarly() {
+		return
+	}
 	// (b) impl-only: whole life sequentially, and every sign-jump-sign history of small heights
 	type job struct {
 		h, hf int
@@ -155,6 +180,9 @@ func genC01(g *gen) {
 			if c%3 == 0 {
 				i = g.rng.Intn(n - 1)
 			}
+			if i >= n-1 {
+				i = n - 2
+			}
 			j := i + 1 + g.rng.Intn(n-1-i)
 			if c%2 == 0 {
 				for _, p := range pts {
@@ -178,7 +206,7 @@ func genC01(g *gen) {
 	}
 	var mu sync.Mutex
 	parallel(len(jobs), func(k int) {
-		sub := &gen{prop: g.prop, counts: map[string]int{}, distinct: map[string]bool{}}
+		sub := &gen{prop: g.prop, counts: map[string]int{}, distinct: map[string]bool{}, out: g.out, t0: g.t0}
 		sub.lifeCheck(seed, jobs[k].h, jobs[k].hf, jobs[k].hist, jobs[k].what)
 		mu.Lock()
 		g.predEvals += sub.predEvals
@@ -189,6 +217,9 @@ func genC01(g *gen) {
 		g.counts[fmt.Sprintf("history:h=%d", jobs[k].h)]++
 		mu.Unlock()
 	})
+	if g.stopEarly() {
+		return
+	}
 	// (c) label mode: the full traversal state after every index, named by tree position, against the Lean label model
 	heights := []int{4, 6, 8, 10}
 	if g.thorough {
@@ -199,6 +230,9 @@ func genC01(g *gen) {
 		out := g.op("bds.init %d", h)
 		g.check(!strings.Contains(out, "BAD") && strings.Contains(out, fmt.Sprintf("root=%d.0", h)), "label-root", "setup root is not the tree root: "+trunc(out, 80), fmt.Sprintf("bds.init %d", h))
 		for i := 0; i < (1<<h)-1; i++ {
+			if i%64 == 0 && g.stopEarly() {
+				return
+			}
 			out = g.op("bds.step")
 			// the authentication path of leaf i+1 must be the siblings along its path
 			want := make([]string, h)
